@@ -207,6 +207,127 @@ def batches(rng, tier):
     yield Batch("nary-sampled-tables", ops,
                 note="apply/2 combine maybe_multi/2 either-apply/2 variant-apply/1 and the ternary apply/3 maybe_multi/3 either-apply/3: "
                      "every input tuple and value category, sampled function tables")
+    yield from blind_spot_batches(rng, tier)
+
+
+def with_x(vals, n=3):
+    """all tables over vals + X (= the continuation throws there) that contain at least one X"""
+    return [t for t in tables(list(vals) + ["X"], n) if "X" in t]
+
+
+CATS2_MIXED = ["LC", "LR", "CL", "CR", "RL", "RC"]
+CATS3 = ["LLL", "CCC", "RRR", "RLL", "LRL", "LLR", "RRL", "RLR", "LRR"]
+CATS3_MIXED = CATS3[3:]
+LC = ["L", "C"]
+
+
+def blind_spot_batches(rng, tier):
+    """Systematic batches for what the per-operation batches above cannot see (see notes/C04.md, "Blind spots")."""
+    thorough = tier == "thorough"
+    r = rng.fork("blind")
+
+    # ---- a different value category per argument
+    ops = []
+    k = 4 if thorough else 2
+    for c, a, b in prod(CATS2_MIXED, OPT, OPT):
+        for _ in range(k):
+            ops.append(f"o.apply2 {c} {a} {b} {rtable(r, D, 9)}")
+            ops.append(f"o.combine {c} {a} {b} {rtable(r, D, 9)}")
+            ops.append(f"o.mm2 {c} {a} {b} {r.choice(D)} {rtable(r, D, 9)}")
+    for c, a, b in prod(CATS2_MIXED, EITH, EITH):
+        for _ in range(k):
+            ops.append(f"e.apply2 {c} {a} {b} {rtable(r, D, 9)}")
+    for c, a, b in prod(CATS2_MIXED, VAR, VAR):
+        ops.append(f"v.apply2 {c} {a} {b} {rtable(r, D, 81)}")
+    for c, a, b, d in prod(CATS3_MIXED, OPT, OPT, OPT):
+        ops.append(f"o.apply3 {c} {a} {b} {d} {rtable(r, D, 27)}")
+        ops.append(f"o.mm3 {c} {a} {b} {d} {r.choice(D)} {rtable(r, D, 27)}")
+    for c, a, b, d in prod(CATS3_MIXED, EITH, EITH, EITH):
+        ops.append(f"e.apply3 {c} {a} {b} {d} {rtable(r, D, 27)}")
+    for a, b, d in prod(VAR, VAR, VAR):
+        for c in (CATS3 if thorough else [r.choice(CATS3)]):
+            ops.append(f"v.apply3 {c} {a} {b} {d} {rtable(r, D, 27)}")
+    yield Batch("mixed-value-categories", ops,
+                note="apply/2,3 combine maybe_multi/2,3 either-apply/2,3 variant-apply/2,3 with a different value category per argument "
+                     "(all 6 mixed pairs, all 6 L/R mixtures of three) on every input tuple, sampled tables: an argument forwarded with "
+                     "another argument's category moves out of an lvalue (SRC-MODIFIED) or is seen as 9")
+
+    # ---- the same object as both operands
+    ops = []
+    for c, o in prod(LC, OPT):
+        ops.append(f"all9 o.combine.same {c} {o} *")
+        ops.append(f"all9 o.apply2.same {c} {o} *")
+        ops += [f"o.mm2.same {c} {o} {d} {rtable(r, D, 9)}" for d in list(D) + ["X"]]
+        ops.append(f"o.alt.same {c} {o}")
+    ops += [f"o.cmp.same {o}" for o in OPT]
+    ops += [f"all9 e.apply2.same {c} {e} *" for c, e in prod(LC, EITH)]
+    ops += [f"v.cmp.same {v}" for v in VAR]
+    for v in VAR:
+        ops += [f"v.compare.same {v} {tb}" for tb in ["t" * 27, "f" * 27] + [rtable(r, "tf", 27) for _ in range(4)]]
+    yield Batch("same-object-twice", ops, exhaustive=True,
+                note="combine / apply / maybe_multi / alternative / either-apply / == != < / compare with one lvalue object as both "
+                     "operands (all 3^9 tables for combine, apply, either-apply)")
+
+    # ---- continuations returning a reference
+    ops = [f"o.maybe_ref {c} {o} {d}" for c, o, d in prod(LC, OPT, D)]
+    ops += [f"e.match_ref {c} {e}" for c, e in prod(LC, EITH)]
+    ops += [f"v.match_ref {c} {v}" for c, v in prod(LC, VAR)]
+    ops += [f"v.apply_ref {c} {v}" for c, v in prod(LC, VAR)]
+    yield Batch("reference-results", ops, exhaustive=True,
+                note="maybe / either-match / variant-match / variant-apply with continuations that return a reference to the payload "
+                     "of their argument: the result must be the object inside the source (`in:`), not a temporary (`other:` / ASan)")
+
+    # ---- other container types
+    lo = lists(OPT)
+    ops = [f"o.cat.ld {c} {l}" for c, l in prod(CATS, lo)] + [f"o.seq.dl {c} {l}" for c, l in prod(CATS, lo)]
+    yield Batch("other-containers", ops, exhaustive=True, note="cat: std::list -> std::deque, sequence: std::deque -> std::list; all vectors up to length 4 x 3 categories")
+
+    # ---- continuations that throw
+    xdd, xdo, xdb, xde = with_x(D), with_x(OPT), with_x("tf"), with_x(EITH)
+    ops = []
+    ops += [f"o.map {c} {o} {f}" for c, o, f in prod(CATS, OPT, xdd)]
+    ops += [f"o.bind {c} {o} {f}" for c, o, f in prod(CATS, OPT, xdo)]
+    ops += [f"o.mbind {c} {o} {f}" for c, o, f in prod(CATS, OPT, xdo)]
+    ops += [f"o.apply1 {c} {o} {f}" for c, o, f in prod(CATS, OPT, xdd)]
+    ops += [f"o.filter {c} {o} {p}" for c, o, p in prod(CATS, OPT, xdb)]
+    ops += [f"o.alt {c} {o} X" for c, o in prod(CATS, OPT)]
+    ops += [f"o.from {c} {o} X" for c, o in prod(CATS, OPT)]
+    dx = list(D) + ["X"]
+    tx = tables(dx)
+    ops += [f"o.maybe {c} {o} {d} {t}" for c, o, d, t in prod(CATS, OPT, dx, tx) if d == "X" or "X" in t]
+    ops += [f"o.mm1 {c} {o} {d} {t}" for c, o, d, t in prod(CATS, OPT, dx, tx) if d == "X" or "X" in t]
+    ops += ["o.make_if t X", "o.make_if f X"]
+    for c, a, b in prod(CATS + CATS2_MIXED, OPT, OPT):
+        ops.append(f"o.apply2 {c} {a} {b} {rtable(r, dx, 9)}")
+        ops.append(f"o.combine {c} {a} {b} {rtable(r, dx, 9)}")
+        ops.append(f"o.mm2 {c} {a} {b} {r.choice(dx)} {rtable(r, dx, 9)}")
+    for c, e, f in prod(CATS, EITH, xdd):
+        g = [rtable(r, dx, 3) for _ in range(2)]
+        ops += [f"e.match {c} {e} {f} {h}" if e[0] == "F" else f"e.match {c} {e} {h} {f}" for h in g]
+        ops.append(f"e.map {c} {e} {f}")
+        ops.append(f"e.apply1 {c} {e} {f}")
+        ops.append(f"e.mapf {c} {e} {f}")
+    ops += [f"e.bind {c} {e} {f}" for c, e, f in prod(CATS, EITH, xde)]
+    ops += [f"e.mbind {c} {e} {f}" for c, e, f in prod(CATS, EITH, xde)]
+    for c, a, b in prod(CATS + CATS2_MIXED, EITH, EITH):
+        ops.append(f"e.apply2 {c} {a} {b} {rtable(r, dx, 9)}")
+    ops += [f"e.from_opt {c} {o} X" for c, o in prod(CATS, OPT)]
+    ops += [f"e.try {o} {t}" for o, t in prod(OUTCOMES, xdd)]
+    ex = EITH + ["X"]
+    ops += [f"e.first {l}" for l in lists(ex, 4) if "X" in l]
+    ops += [f"e.loop {l} {b}" for l, b in prod(lists(EITH, 3), with_x("u"))]
+    for c, v, f in prod(CATS, VAR, xdd):
+        g, h = rtable(r, dx, 3), rtable(r, dx, 3)
+        fs = {"A": (f, g, h), "B": (g, f, h), "C": (g, h, f)}[v[0]]
+        ops.append(f"v.match {c} {v} {fs[0]} {fs[1]} {fs[2]}")
+        ops.append(f"v.apply1 {c} {v} {rtable(r, dx, 9)}")
+    for a, b in prod(VAR, VAR):
+        ops.append(f"v.compare {a} {b} {rtable(r, 'tfX', 27)}")
+    yield Batch("throwing-continuations", ops,
+                note="every operation with a continuation, with tables / thunks in which some entries throw: the exception leaves the "
+                     "combinator, the calls made up to then are the model's, and an lvalue source is unchanged afterwards; "
+                     "exhaustive for the unary operations (all tables over D+{throw} with a throwing entry), first_success on all "
+                     "lists <= 4 with throwing functions, loop with a throwing body")
 
 
 MANIFEST = {
